@@ -238,7 +238,8 @@ def main(run, shard=(0, 1)) -> None:
             if not mine(idx, shard):
                 continue
             s = ''.join(tup)
-            for m in (False, True):
+            # both orders of the two modes: whatever one call leaves behind must not reach the other
+            for m in ((False, True) if idx % 2 else (True, False)):
                 check_one(run, s, m, 'exhaustive')
                 evals += 1
                 if ESC_CHARS.intersection(s):
@@ -269,7 +270,7 @@ def main(run, shard=(0, 1)) -> None:
         if not mine(cp, shard) or 0xD800 <= cp <= 0xDFFF:
             continue
         s = 'a' + chr(cp) + '\\'
-        for m in (False, True):
+        for m in ((False, True) if cp % 2 else (True, False)):
             check_one(run, s, m, 'codepoints')
         run.case_bulk(2, 2)
     run.count('codepoints', top)
